@@ -347,6 +347,20 @@ def library_panic(out):
     if not m:
         return None
     tail = out[m.start():]
+    if "livelock" in m.group(1):
+        # the harness watchdog's dump of all goroutines: look for one that is running / runnable inside the
+        # library (not parked, not the watchdog itself)
+        for blk in re.split(r"\n\s*\n", tail):
+            h = re.match(r"goroutine \d+ \[(running|runnable)[^\n]*\n", blk)
+            if not h or "runtime.Stack" in blk:
+                continue
+            for fn in re.findall(r"^(\S+)\(", blk[h.end():], re.M):
+                if fn.startswith(("runtime.", "runtime/", "internal/", "sync.", "sync/", "context.", "time.")):
+                    continue
+                if fn.startswith("github.com/aperturerobotics/util/") and "/verifhook." not in fn:
+                    return {"panic": m.group(1)[:200], "frame": fn[:200], "kind": "livelock"}
+                break
+        return None
     g = re.search(r"^goroutine \d+ \[running[^\n]*\n((?:.+\n)+)", tail, re.M)
     if not g:
         return None
@@ -538,13 +552,17 @@ def standard_check(prop, tier, seed, fam):
             st[k] += s2[k]
         st.setdefault("crashes", []).extend(s2.get("crashes", []))
         st["samples"] += s2["samples"][:1]
-    if st["executions"] == 0:
+    if st["executions"] == 0 and not st.get("crashes"):
         raise Inconclusive("no executions were recorded")
     viol, consumed, total, tstates = validate_traces(wd, fam["specdirs"], fam["monitor"], traces, deque=fam.get("deque", False))
     if consumed != total:
         raise Inconclusive("trace not fully consumed: %d of %d" % (consumed, total))
     for c in st.get("crashes", []):
-        viol.append({"names": ["Panic"], "run": c["run"], "seq": 0, "l": 0, "trace_file": c["trace_file"], "crash": c})
+        nm = "Panic"
+        if c.get("kind") == "livelock":
+            # a library goroutine spinning on the CPU: the family's own name for "loops without progress"
+            nm = next((k for k in ("Livelock", "Spin", "AwaitSpin", "Stuck") if k in fam["property_of"]), "Panic")
+        viol.append({"names": [nm], "run": c["run"], "seq": 0, "l": 0, "trace_file": c["trace_file"], "crash": c})
     mine, harness_err = [], []
     pof = fam["property_of"]
     for v in viol:
